@@ -96,6 +96,13 @@ def _poly(ch, label):
     for e in range(n):
         c = ch.pick((1.0, 0.5, -2.0, 0.0, 3.25, 1e-3), label + "_coef")
         terms.append(E("Term", {"coefficient": repr(c), "exponent": str(e)}, []))
+    # the order of the Terms is the document's business (XTCE does not prescribe one): descending or rotated as well
+    if n > 1:
+        order = ch.weighted([(2, "asc"), (1, "desc"), (1, "rot")], label + "_term_order")
+        if order == "desc":
+            terms.reverse()
+        elif order == "rot":
+            terms = terms[1:] + terms[:1]
     return E("PolynomialCalibrator", {}, terms)
 
 
